@@ -65,7 +65,8 @@ FewLines == {Assign(FALSE, "K1", "=", "none", <<[k |-> "lit", c |-> "a"]>>, FALS
 VARIABLE vec
 Case(ls, eol, final) ==
   LET f == [lines |-> ls, eol |-> eol, final |-> final] IN
-  [text |-> RenderFile(f), lines |-> Len(ls), exp |-> EvalFile(f, Names, Lookup)]
+  \* exp0: what the file defines when the caller gives no lookup at all (Parse, Read, UnmarshalWithLookup(_, nil)): only its own lines
+  [text |-> RenderFile(f), lines |-> Len(ls), exp |-> EvalFile(f, Names, Lookup), exp0 |-> EvalFile(f, Names, [x \in {} |-> ""])]
 \* files of three and four lines in which keys are assigned, referenced, assigned again and referenced again
 Lit(c) == [k |-> "lit", c |-> c]
 Ref(n, braced) == [k |-> "var", n |-> n, b |-> braced]
